@@ -10,8 +10,9 @@ import (
 
 func init() {
 	regSpec(func() scen.Spec { return scen.DataSpec(true) })
+	regSpec(scen.DataLong)
 	Registry["C16"] = func(tier string) int {
-		return engineA("C16", tier, []scen.Spec{scen.DataSpec(tier == "thorough")},
+		return engineA("C16", tier, []scen.Spec{scen.DataLong(), scen.DataSpec(tier == "thorough")},
 			func() []explore.Monitor { return []explore.Monitor{&mon.C16{}} },
 			budget(tier, 150*time.Second, 12*time.Minute),
 			"ID hash functions are injected through the verif-tagged constructor; weak digests are wrapped by the repository's own hasher.NewHasherWithOptions so the real CreateID derivation is under test",
